@@ -16,7 +16,7 @@ claimed = {
    design_ref="8.2",
    technique="contract-based deductive verification: per-path VCs from go/ssa symbolic execution with abstract (uninterpreted) operands, discharged by SMT (QF_NRA + axiomatised exp/log/trig)"),
  "C03": dict(
-   text="Deductive proof that the real Evaluate of sphere, circle, (rounded) box 2D/3D, line, (rounded) cylinder and capsule equals the independent closed-form Euclidean signed distance at every point, and that union/intersection/difference (plain and with the polynomial blend), cut, offset, shell, elongate, plain extrusion, full revolution and uniform scale preserve the two-point 1-Lipschitz property of abstract operands. Union3D preserves it for ANY number of operands (loop invariants over a symbolic array of shapes). EXACT => LIP for primitives, the cone, polygons, rotate-copy/union, arrays, rounded extrusion and partial revolution are not yet under contract (not_decided).",
+   text="Deductive proof that the real Evaluate of sphere, circle, (rounded) box 2D/3D, line, (rounded) cylinder and capsule equals the independent closed-form Euclidean signed distance at every point, and that union/intersection/difference (plain and with the polynomial blend), cut, offset, shell, elongate, plain extrusion, full revolution and uniform scale preserve the two-point 1-Lipschitz property of abstract operands. Union3D, and Union2D with its box pruning (under the operand box assumption), preserve it for ANY number of operands (loop invariants over a symbolic array of shapes). EXACT => LIP for primitives, the cone, polygons, rotate-copy/union, arrays, rounded extrusion and partial revolution are not yet under contract (not_decided).",
    design_ref="8.3",
    technique="contract-based deductive verification: per-path VCs against independent spec functions; two-point Lipschitz contracts with quantified operand assumptions instantiated at evaluation points; lemma library (Lagrange identity, sup-norm Lipschitz of the polynomial blend) proved in the same run"),
  "C04": dict(
